@@ -58,7 +58,7 @@ void World::publish() {
     if (!s) return;
     s->digest = digest.h;
     s->events = event_seq;
-    s->sim_ns = now;
+    s->sim_ns = now - t_origin;
     sim::Task *t = tasks.cur();
     if (t) {
         Node &n = nodes[t->id];
@@ -261,7 +261,12 @@ void World::run(uint64_t t_end, uint64_t max_events) {
             continue;
         }
         last_task_ = t->id;
-        publish();
+        if (sim::g_shm) {
+            Node &rn = nodes[t->id];
+            snprintf(sim::g_shm->cur_task, sizeof sim::g_shm->cur_task, "%s", rn.name.c_str());
+            if (rn.in_handler) snprintf(sim::g_shm->in_hand, sizeof sim::g_shm->in_hand, "frame#%llu", (unsigned long long)rn.handler_frame);
+            else sim::g_shm->in_hand[0] = 0;
+        }
         tasks.switch_to(t);
         if (t->state == sim::Task::DONE) {
             Node &n = nodes[t->id];
